@@ -192,6 +192,17 @@ func (w *World) establishing(in ssa.Instruction, obj ssa.Value, f fieldID, memo 
 			return m != nil && w.establishes(m, 0, f, memo)
 		}
 		callee := c.StaticCallee()
+		// rlp.DecodeBytes(bytes, obj) runs the DecodeRLP method of obj's type
+		if callee != nil && callee.Name() == "DecodeBytes" && callee.Pkg != nil && callee.Pkg.Pkg.Path() == "github.com/ethereum/go-ethereum/rlp" && len(c.Args) == 2 && isObj(c.Args[1]) {
+			for _, mn := range []string{"DecodeRLP"} {
+				if sel := w.Prog.MethodSets.MethodSet(types.NewPointer(f.owner)).Lookup(f.owner.Obj().Pkg(), mn); sel != nil {
+					if m := w.Prog.MethodValue(sel); m != nil && w.establishes(m, 0, f, memo) {
+						return true
+					}
+				}
+			}
+			return false
+		}
 		if callee == nil || !w.InModule(callee) {
 			return false
 		}
@@ -283,6 +294,11 @@ func p6(w *World, r *Report, reach *Reach, scope []*ssa.Function) {
 		return n != nil && n.Obj() == f.owner.Obj()
 	}
 	memo := map[estKey]int{}
+	w.p6Scope = map[*ssa.Function]bool{}
+	for _, fn := range scope {
+		w.p6Scope[fn] = true
+	}
+	defer func() { w.p6Scope = nil }()
 	for _, f := range fields {
 		// unguarded dereferences on the input paths
 		var uses []string
@@ -422,7 +438,13 @@ func (w *World) unestablishedExit(fn *ssa.Function, from ssa.Instruction, obj ss
 		if ridx < 0 || depth >= 3 {
 			return site(w, ret), w.FName(fn)
 		}
-		callers := w.Callers(fn)
+		var callers []CallerSite
+		for _, cs := range w.Callers(fn) {
+			// only the callers on the input paths take over the obligation
+			if w.p6Scope == nil || w.p6Scope[cs.Caller] {
+				callers = append(callers, cs)
+			}
+		}
 		if len(callers) == 0 {
 			return site(w, ret), w.FName(fn)
 		}
